@@ -46,7 +46,7 @@ static const profile_t PROFILES[] = {
     { "C09X", 1, G_SRC | G_SUB | G_LIFE | G_ILLEGAL | G_BADPARAM | G_SUBDUP,                  RL_BASE | R_SR,                     0, "01000100" "07000100", 1, 0, 1,
       0, 0, (1u << P_T) | (1u << P_U) | (1u << P_RT), 0, 0x7f, 1 | 0x100, 0, 4 },
     { "C03", 2, G_SRC | G_READY | G_ENV | G_MSG | G_LIFE | G_QUIT | G_ARM | G_EPOLLFAULT | G_SUB, RL_BASE | R_PS | R_SR | R_LP | R_EV,  1, "01000100" "07000100" "07010100" "04000000", 1, 0, 1,
-      (1u << A_ERRNO) | (1u << A_STOP) | (1u << A_PAUSE) | (1u << A_QUIT), (1u << CB_EVT), (1u << P_T), (1u << T_T), (1u << K_FD) | (1u << K_TMR), 1 | 4 },
+      (1u << A_ERRNO) | (1u << A_STOP) | (1u << A_PAUSE) | (1u << A_QUIT), (1u << CB_EVT), (1u << P_T), (1u << T_T), (1u << K_FD) | (1u << K_TMR), 1 | 4, 0, 16 },
     { "C03E", 2, G_SRC | G_ENVX | G_LIFE | G_QUIT | G_MSG,                                     RL_BASE | R_PS | R_SR | R_LP | R_EV, 0, "01000100" "07000100" "07010100" "04000000", 1, 0, 1,
       0, 0, 0, 0, (1u << K_SGN) | (1u << K_PATH) | (1u << K_PID), 1 | 4, 2 },
     { "C13", 1, G_MSG | G_SUB | G_PRIO | G_BATCH | G_ENV | G_LIFE | G_SRC | G_READY,         RL_BASE | R_PS | R_FIFO | R_BA,     0, "01000100" "07000100" "07010100" "04000000", 1, 0, 1,
@@ -58,9 +58,9 @@ static const profile_t PROFILES[] = {
     { "C15N", 2, G_LIFE | G_ARM | G_QUIT,                                                    RL_BASE | R_NM,                     2, "01000100" "07000103" "07010100", 1, 0, 1,
       (1u << A_CTXCALL) | (1u << A_START) | (1u << A_STOP) | (1u << A_DEREG), 0xf, 0, 0 },
     { "C20", 2, G_SRC | G_READY | G_ENV | G_LIFE | G_PILL | G_ARM | G_REFS | G_REG | G_REREG,         RL_BASE | R_SR | R_FD,              1, "01000100" "07000100" "07010100" "04000000", 1, 1, 1,
-      (1u << A_DEREG) | (1u << A_RETAIN) | (1u << A_STOP), (1u << CB_EVT) | (1u << CB_START), 0, 0, (1u << K_FD) | (1u << K_TMR), 0x3f | 0x100 | 0x400, 2 },
-    { "C20T", 1, G_LIFE | G_SUB | G_QUIT | G_TICK | G_ARM | G_MSG,                                RL_BASE | R_PS | R_SY | R_FD | R_EV, 1, "01000100" "07000100" "07010100" "04000000", 1, 0, 1,
-      (1u << A_TICK) | (1u << A_STOP), (1u << CB_EVT) | (1u << CB_STOP), (1u << P_CTX_STOPPED) | (1u << P_CTX_TICK), 0 },
+      (1u << A_DEREG) | (1u << A_RETAIN) | (1u << A_STOP) | (1u << A_SRCDEREG), (1u << CB_EVT) | (1u << CB_START), 0, 0, (1u << K_FD) | (1u << K_TMR), 0x3f | 0x100 | 0x400, 2 },
+    { "C20T", 1, G_LIFE | G_SUB | G_QUIT | G_TICK | G_ARM | G_MSG,                                RL_BASE | R_PS | R_SY | R_FD | R_EV, 1, "01000100" "07000100" "07010100", 1, 0, 1,
+      (1u << A_TICK) | (1u << A_STOP), (1u << CB_EVT) | (1u << CB_STOP) | (1u << CB_START), (1u << P_CTX_STOPPED) | (1u << P_CTX_TICK), 0 },
     { "C04", 2, G_LIFE | G_REG | G_MSG | G_SUB | G_BCAST | G_AUTOFREE | G_PILL | G_ARM | G_QUIT | G_STASH | G_BECOME | G_SRC | G_READY | G_ENV | G_REFS | G_FAULT | G_BATCH,
       RL_BASE | R_PS | R_FREE | R_SH | R_HD | R_SR | R_PILL | R_EV, 2, "01000100" "07000100" "07010100" "04000000", 1, 1, 1,
       (1u << A_STOP) | (1u << A_DEREG) | (1u << A_PAUSE) | (1u << A_UNSUB) | (1u << A_TELL) | (1u << A_PUB) | (1u << A_STASH) | (1u << A_UNSTASH) | (1u << A_RETAIN) | (1u << A_QUIT),
@@ -77,7 +77,7 @@ static void world_reset(void) {
     teardown_busy = 0; memset(dereg_busy, 0, sizeof dereg_busy);
     memset(exp_start, 0, sizeof exp_start); memset(exp_stop_run, 0, sizeof exp_stop_run); memset(exp_stop_other, 0, sizeof exp_stop_other); memset(opt_stop, 0, sizeof opt_stop); memset(eval_ok, 0, sizeof eval_ok);
     m_set_memhook(lg_malloc, lg_calloc, lg_free);
-    for (int i = 0; i < NUFD; i++) { int p[2]; if (__real_pipe(p)) { perror("pipe"); _exit(3); } fcntl(p[0], F_SETFL, O_NONBLOCK); UFD[i].rd = p[0]; UFD[i].wr = p[1]; UFD[i].open_rd = 1; UFD[i].bytes = 0; }
+    for (int i = 0; i < NUFD; i++) { int p[2]; if (__real_pipe(p)) { perror("pipe"); _exit(3); } fcntl(p[0], F_SETFL, O_NONBLOCK); UFD[i].rd = p[0]; UFD[i].wr = p[1]; UFD[i].open_rd = 1; UFD[i].bytes = 0; UFD[i].hung = UFD[i].hung_seen = 0; }
 }
 
 static void free_hook(void *p) {
@@ -85,7 +85,7 @@ static void free_hook(void *p) {
         if (MSG[i].freed++) vfail("PS.free", "PS.free|twice", "auto-free payload of message #%d released twice", i);
         /* a held (batched / low priority) message is discarded when a pill sent after it stops the module: the library releases it before on_stop is seen */
         for (int t = 0; t < NM; t++) { mod_t *m = &MD[t]; if (!m->present || m->st != S_RUNNING) continue;
-            int held = m->ever_batched; for (int q = 0; q < NPAT; q++) if (m->sub[q].present && m->sub[q].prio == PR_LOW) held = 1;
+            int held = m->ever_batched || holds_low(t);
             if (!held) continue;
             int pill = -1; for (int k = 0; k < m->nmb; k++) if (m->mb[k].kind == 0 && MSG[m->mb[k].msg].topic == T_PILL) { pill = k; break; }
             for (int k = 0; k < pill; k++) if (m->mb[k].kind == 0 && m->mb[k].msg == i && !m->mb[k].optional) { m->mb[k].optional = 1; MSG[i].owed--; }
